@@ -1,5 +1,5 @@
 (* C03 — Locale parsing accepts all well-formed locale ids and never silently drops input. *)
-From UL Require Import Bytes Subtags LangId Ext Grammar LangIdSpec LocaleSpec LangIdProofs ExtProofs LocaleSpecProofs SplitProofs StringLevel LocaleGrammar LocaleGrammarProofs LocaleGrammarInv.
+From UL Require Import Bytes Subtags LangId Ext Grammar LangIdSpec LocaleSpec LangIdProofs ExtProofs LocaleSpecProofs SplitProofs StringLevel LocaleGrammar LocaleGrammarProofs LocaleGrammarInv RejectClasses.
 From Coq Require Import String.
 
 (* Ok or Err for every byte string: no panic on unsupported / malformed singletons (D1) *)
@@ -44,6 +44,39 @@ Theorem C03_complete : forall s v, spec_locale_zone (split s) = MustAccept v -> 
 Proof. exact locale_complete. Qed.
 Theorem C03_rejects : forall s, spec_locale_zone (split s) = MustReject -> exists e, locale_from_bytes s = Err e.
 Proof. exact locale_rejects. Qed.
+
+(* two of the reject classes as general theorems on byte strings: an OVER-LONG subtag (more than 8 bytes) or a
+   MALFORMED subtag (any byte that is not an ASCII letter or digit), anywhere in the input, is an error - the
+   parser never skips or drops such a subtag; the only tokens the lenient zone tolerates are empty ones *)
+Theorem C03_rejects_overlong : forall s t, In t (split s) -> (8 < List.length t)%nat -> exists e, locale_from_bytes s = Err e.
+Proof. exact locale_rejects_overlong. Qed.
+Theorem C03_rejects_malformed : forall s t, In t (split s) -> existsb (fun b => negb (is_alnum b)) t = true ->
+  exists e, locale_from_bytes s = Err e.
+Proof. exact locale_rejects_malformed. Qed.
+(* a singleton other than t / u / x (either case) anywhere after the language identifier and before a private-use
+   singleton; a REPEATED -u- (c = 117) or -t- (c = 116) singleton; a multi-character token where a singleton is
+   expected directly after the language identifier: all MustReject, hence (C03_rejects) an error *)
+Theorem C03_rejects_other_singleton : forall toks id A s B,
+  spec_langid_prefix toks = Some (id, A ++ s :: B) -> no_x A = true -> is_single s = true -> utx s = false ->
+  spec_locale_zone toks = MustReject.
+Proof. exact other_singleton_rejected. Qed.
+Theorem C03_rejects_repeated_singleton : forall toks id A s1 B s2 C (c : N),
+  (c = 117 \/ c = 116)%N ->
+  spec_langid_prefix toks = Some (id, A ++ s1 :: B ++ s2 :: C) -> no_x (A ++ s1 :: B) = true ->
+  single_is c s1 = true -> single_is c s2 = true ->
+  spec_locale_zone toks = MustReject.
+Proof. exact repeated_singleton_rejected. Qed.
+Theorem C03_rejects_misplaced_after_langid : forall toks id t rest,
+  spec_langid_prefix toks = Some (id, t :: rest) -> (2 <= List.length t)%nat -> spec_locale_zone toks = MustReject.
+Proof. exact misplaced_after_langid. Qed.
+Example C03_reject_class_instances :
+  spec_langid_prefix (split (bs "en-US-u-ca-buddhist-a-foo"%string))
+    = Some (mkLangId (Some (bs "en")) None (Some (bs "US")) None, [bs "u"; bs "ca"; bs "buddhist"] ++ bs "a" :: [bs "foo"])%string
+  /\ no_x [bs "u"; bs "ca"; bs "buddhist"]%string = true /\ utx (bs "a"%string) = false
+  /\ single_is 117 (bs "U"%string) = true.
+Proof. vm_compute. repeat split; reflexivity. Qed.
+Theorem C03_zone_tokens_usable : forall toks, spec_locale_zone toks <> MustReject -> forallb tok_ok toks = true.
+Proof. exact zone_tokens_ok. Qed.
 
 (* the zones are inhabited as the statement says *)
 Example C03_zones :
@@ -95,6 +128,12 @@ Proof.
 Qed.
 Print Assumptions C03_accepts_every_wellformed.
 Print Assumptions C03_grammar_in_must_accept.
+Print Assumptions C03_rejects_overlong.
+Print Assumptions C03_rejects_malformed.
+Print Assumptions C03_zone_tokens_usable.
+Print Assumptions C03_rejects_other_singleton.
+Print Assumptions C03_rejects_repeated_singleton.
+Print Assumptions C03_rejects_misplaced_after_langid.
 Print Assumptions C03_must_accept_is_the_grammar.
 
 Print Assumptions C03_sound.
